@@ -277,6 +277,12 @@ func (s *Error) UnmarshalXML(d *xml.Decoder, start xml.StartElement) error {
 			if err = d.Skip(); err != nil {
 				return err
 			}
+		default:
+			// Application specific conditions and other unknown children are not
+			// part of the decoded value, but they must still be consumed.
+			if err = d.Skip(); err != nil {
+				return err
+			}
 		}
 	}
 }
